@@ -27,7 +27,7 @@ from typing import (
 import lupa.lua51 as lupa
 from lupa.lua51 import lua_type
 
-from .common import is_positional_name
+from .common import NAMED_ARG_RE, is_positional_name
 from .interwiki import mw_site_interwikiMap
 from .parserfns import (
     PARSER_FUNCTIONS,
@@ -465,7 +465,7 @@ def call_lua_sandbox(
             num = 1
             for arg in args:
                 # |-separated strings in {{templates|arg=value|...}}
-                m = re.match(r"""(?s)^\s*([^<>="']+?)\s*=\s*(.*?)\s*$""", arg)
+                m = NAMED_ARG_RE.match(arg)
                 if m is not None:
                     # named parameter
                     k, arg = m.groups()
